@@ -122,6 +122,13 @@ func (x *Exec) needsInline(c *ast.CallExpr) bool {
 	if x.isOpaqueCallee(fn) {
 		return false
 	}
+	if x.con != nil {
+		for _, n := range strings.Split(x.con.Opts["inline"], ",") {
+			if strings.TrimSpace(n) == fn.Name() && x.L.funcDecl(fn) != nil {
+				return true // the unit asks for the body, not the contract
+			}
+		}
+	}
 	if x.lookupContract(fn) != nil {
 		return false
 	}
